@@ -401,6 +401,24 @@ func TestVerifC05(t *testing.T) {
 					jobs = append(jobs, job{fault{Chain: ch.name, Hop: hopIdx, Kind: kind + ":" + name, At: at, Via: []string{"client.FetchURL", "pub.New"}[n%2]}, start, hops, kind == "trickle" || at >= needEnd})
 				}
 			}
+			// silent for most of the timeout, then a polite close before the first byte (a fault a client might be tempted to retry:
+			// whatever it does, the time bound of the hop holds), in several lengths of silence
+			for _, frac := range []int{30, 60, 85} {
+				n := caseNo
+				caseNo++
+				if !c.Mine(n) {
+					continue
+				}
+				frac := frac
+				start, hops := install(ch, hopIdx, func(h hop) sim.Plan {
+					p := sim.Respond([]byte(h.raw))
+					p.Latency = T * time.Duration(frac) / 100
+					p.CutAt = 0
+					p.Close = []string{"notify", "fin"}[frac%2]
+					return p
+				})
+				jobs = append(jobs, job{fault{Chain: ch.name, Hop: hopIdx, Kind: fmt.Sprintf("late-empty-close:%d%%", frac), Via: "client.FetchURL"}, start, hops, false})
+			}
 			// silent after the handshake
 			n := caseNo
 			caseNo++
